@@ -8,7 +8,10 @@
 
 using namespace votca::csg;
 using vfh::J;
-namespace vfsched { extern std::function<void(const Result &)> on_deadlock; }
+namespace vfsched {
+extern std::function<void(const Result &)> on_deadlock;
+extern std::function<void(const Result &, const std::string &, const std::string &)> on_fatal;
+}
 
 struct Rec { long step; uint64_t sum; bool operator==(const Rec &o) const { return step == o.step && sum == o.sum; } bool operator<(const Rec &o) const { return step < o.step || (step == o.step && sum < o.sum); } };
 
@@ -132,6 +135,17 @@ int main(int argc, char **argv) {
     std::vector<int> d(r.decisions.begin(), r.decisions.end());
     w.vec("decisions", d);
     R.violation("sched/deadlock", "no enabled thread while some thread has not ended (real deadlock under the recorded schedule)", w);
+    R.counter("events", (long long)r.trace.size());
+    R.summary();
+    fflush(stdout);
+    _exit(0);
+  };
+
+  vfsched::on_fatal = [&](const vfsched::Result &r, const std::string &key, const std::string &detail) {
+    if (g_cout_buf) std::cout.rdbuf(g_cout_buf);
+    if (g_cerr_buf) std::cerr.rdbuf(g_cerr_buf);
+    J w; w.raw("scenario", cur_scn).raw("schedule", cur_sched).s("trace_tail", vfsched::render(r, 300));
+    R.violation("sched/" + key, detail, w);
     R.counter("events", (long long)r.trace.size());
     R.summary();
     fflush(stdout);
